@@ -560,6 +560,16 @@ class Frame:
                 return v.convert(ti[0], ti[1])
             if ck == 'FunctionToPointerDecay' or ck == 'BuiltinFnToFnPtr':
                 return self.rvalue(sub)
+            if ck in ('FloatingCast', 'IntegralToFloating', 'FloatingToIntegral'):
+                # a value conversion between float formats / float and integer is no bit move: rounding, and a
+                # signalling NaN loses its payload bit.  Same-format casts are the identity; everything else is unknown.
+                v = self.rvalue(sub)
+                ti = self.ip.tinfo(n)
+                if ck == 'FloatingCast' and isinstance(v, BV) and v.isfloat and len(ti) == 3 and ti[2] and ti[0] == v.width:
+                    return v
+                if len(ti) != 3:
+                    raise Unsupported('cast kind %s to %r' % (ck, ti))
+                return BV([TOP] * ti[0], ti[1], ti[2])
             raise Unsupported('cast kind %s' % ck)
         if k == 'DeclRefExpr':
             rd = n.get('referencedDecl', {})
